@@ -17,6 +17,9 @@ import OFV.Proofs.C07DCp
 import OFV.Proofs.C07DoubleComm
 import OFV.Proofs.C07DCMain
 import OFV.Proofs.C07TermInfo
+import OFV.Proofs.C07BCH8
+import OFV.Proofs.C07BCHExp
+import OFV.Proofs.C07BCHUniv
 
 namespace OFV.C07
 open OFV OFV.Spec OFV.Spec.C07 OFV.Model OFV.Model.C07 OFV.Proofs.C07 OFV.Proofs.C07F
@@ -271,6 +274,52 @@ theorem bch_exact_upto_6_partial (k : Nat) (hk : k ≤ 6) :
     Spec.BCH.check k (generateNestedCommutator k) = true := by
   have : k = 0 ∨ k = 1 ∨ k = 2 ∨ k = 3 ∨ k = 4 ∨ k = 5 ∨ k = 6 := by omega
   rcases this with rfl | rfl | rfl | rfl | rfl | rfl | rfl <;> decide +kernel
+
+/-- the same for the orders 7 and 8 (the range the harness exercises): `bch_expand` truncated at any
+order `k ≤ 8` is exact on the free nilpotent algebra of class `k`. -/
+theorem bch_exact_upto_8_partial (k : Nat) (hk : k ≤ 8) :
+    Spec.BCH.check k (generateNestedCommutator k) = true := by
+  by_cases h6 : k ≤ 6
+  · exact bch_exact_upto_6_partial k h6
+  · have : k = 7 ∨ k = 8 := by omega
+    rcases this with rfl | rfl
+    · exact Proofs.C07.bch_check_7
+    · exact Proofs.C07.bch_check_8
+
+/-- Dynkin-style nested commutator `'010…' ↦ [x, [y, [x, …]]]` in a ring (`false = x`, `true = y`) -/
+def nestedComm {A : Type} [Ring A] (x y : A) : List Bool → A
+  | [] => 1
+  | [g] => if g then y else x
+  | g :: r => (if g then y else x) * nestedComm x y r - nestedComm x y r * (if g then y else x)
+
+/-- **`bch_universal_upto_8`** — the BCH table in EVERY nilpotent setting, not only the free one.  Let `A`
+be any ℚ-algebra and `x, y ∈ A` such that every product of more than `k` factors from `{x, y}` vanishes
+(`k ≤ 8`).  With the coefficient table `_generate_nested_commutator(k)` of the Model (exact rationals),
+`z = Σ coeff · nested commutator` — the value `_bch_expand_two_terms(x, y, order=k)` computes — satisfies
+`exp z = exp x · exp y`, where `exp t = Σ_{j ≤ k} t^j / j!` (all three series terminate there).
+This is the universal property of the free nilpotent algebra, formalised for the list representation of
+the Spec (`Proofs.C07U`): evaluation at `(x, y)` is additive and, modulo words longer than `k`,
+multiplicative. -/
+theorem bch_universal_upto_8 (k : Nat) (hk : k ≤ 8) {A : Type} [Ring A] [Algebra ℚ A] (x y : A)
+    (hnil : ∀ w : List Bool, k < w.length → (w.map fun g => if g then y else x).prod = 0) :
+    (∑ j ∈ Finset.range (k + 1), ((j.factorial : ℚ)⁻¹) •
+        (((generateNestedCommutator k).map fun tc => (tc.2 : ℚ) • nestedComm x y tc.1).sum) ^ j) =
+      (∑ j ∈ Finset.range (k + 1), ((j.factorial : ℚ)⁻¹) • x ^ j) *
+        (∑ j ∈ Finset.range (k + 1), ((j.factorial : ℚ)⁻¹) • y ^ j) := by
+  have hn : Proofs.C07U.Nil x y k := by
+    intro w hw; rw [Proofs.C07U.wordEval_eq]; exact hnil w hw
+  have hnest : ∀ w, nestedComm x y w = Proofs.C07U.nestedA x y w := by
+    intro w
+    induction w with
+    | nil => rfl
+    | cons g r ih =>
+      cases r with
+      | nil => rfl
+      | cons g' r' => simp only [nestedComm, Proofs.C07U.nestedA, Proofs.C07U.gen, ih]
+  have h := Proofs.C07U.check_universal x y k (generateNestedCommutator k) (bch_exact_upto_8_partial k hk)
+    (Proofs.C07.expXexpY_split k hk) hn
+  simp only [Proofs.C07U.expT_eq] at h
+  simpa only [hnest] using h
 
 /-- the check is not vacuous: doubling the third-order coefficients breaks it -/
 example : Spec.BCH.check 3 ((generateNestedCommutator 3).map fun tc =>
